@@ -7,6 +7,7 @@ import (
 	"path/filepath"
 	"sort"
 	"strings"
+	"time"
 
 	"github.com/scigolib/hdf5/verifsim/disk"
 	"github.com/scigolib/hdf5/verifsim/e1"
@@ -236,6 +237,22 @@ func execC17(t *trace.Trace, dir string) *harness.RunResult {
 		ex++
 		return ex <= skip
 	}
+	// Wall-clock budget of ONE workload (a file with thousands of chunks costs a
+	// full chunk-iterator pass per fault position): when it is used up the rest
+	// of this workload's fault positions are left out and counted in a probe. It
+	// bounds coverage, never a verdict; replays of a single fault are unaffected.
+	began := time.Now()
+	budget := 45 * time.Second
+	if len(t.Faults) > 0 {
+		budget = time.Hour
+	}
+	overBudget := func() bool {
+		if time.Since(began) > budget {
+			res.Probes["workload-cut-by-time-budget"]++
+			return true
+		}
+		return false
+	}
 	c := &c17ctx{t: t, res: res, seen: map[string]bool{}}
 	quick := true
 	for _, x := range t.Config.Extra {
@@ -293,6 +310,9 @@ func execC17(t *trace.Trace, dir string) *harness.RunResult {
 				if done() {
 					continue
 				}
+				if overBudget() {
+					break
+				}
 				harness.AnnounceFault(trace.Fault{Kind: "truncate", Len: l})
 				d, _ := dumpUnder(work, nil, 0)
 				res.SubRuns++
@@ -325,6 +345,9 @@ func execC17(t *trace.Trace, dir string) *harness.RunResult {
 			for _, k := range ks {
 				if done() {
 					continue
+				}
+				if overBudget() {
+					break
 				}
 				harness.AnnounceFault(trace.Fault{Kind: "read_eio", AtStep: k})
 				d, sim := dumpUnder(base, []trace.Fault{{Kind: "read_eio", AtStep: k}}, 0)
@@ -408,6 +431,9 @@ func execC17(t *trace.Trace, dir string) *harness.RunResult {
 			ft.Faults = []trace.Fault{f}
 			if done() {
 				continue
+			}
+			if overBudget() {
+				break
 			}
 			harness.AnnounceFault(f)
 			out := e1.Run(ft, e1.Options{Dir: dir, Property: "C17", NoFinalCheck: true, KeepFile: true})
